@@ -50,6 +50,8 @@ def gen_case(rng: random.Random, tier: str) -> dict:
         extra.append(["i", {"kind": "num", "dtype": rng.choice(["int64", "int32", "int8", "uint8", "uint16", "float32"]), "values": [float(rng.randint(0, 9)) for _ in range(n)]}])
     if rng.random() < 0.4:
         extra.append(["bo", {"kind": "bool", "dtype": "bool", "values": [rng.random() < 0.5 for _ in range(n)]}])
+    if rng.random() < 0.25:  # a data column called `index` (what reset_index() leaves behind)
+        extra.append(["index", {"kind": "num", "dtype": "float64", "values": [float(i) for i in range(n)]}])
     frame["cols"] += extra
     nums_all = nums + [e[0] for e in extra]
     terms, factors = gen.rand_terms(rng, frame, cats=cats, nums=nums, max_terms=4, max_order=3)
